@@ -1088,8 +1088,9 @@ class Linter:
             fname=fname,
             config=config,
         )
-        # Get rules as appropriate
-        rule_pack = self.get_rulepack(config=config)
+        # Get rules as appropriate. NOTE: Use the config of the parsed file,
+        # which includes any inline config directives from the file itself.
+        rule_pack = self.get_rulepack(config=parsed.config)
         # Lint the file and return the LintedFile
         return self.lint_parsed(
             parsed,
